@@ -452,11 +452,16 @@ package node
 
 // merged-scan handlers run in goroutines of the server fan-out without recover: they must not panic on any
 // argument vector the fan-out passes (C11), and the direction is taken from the command name only (C13)
+// keyInTable(k, t): the table prefix of raw key k (everything before its first ':') is exactly t.  The page that is
+// handed out is cut at the first key of another table: every key kept so far is in the scanned table (a table whose
+// name merely STARTS with the scanned name is another table).
+//@ spec keyInTable(k []byte, t []byte) bool = firstSep(k, len(t)) && (forall i int :: 0 <= i && i < len(t) ==> k[i] == t[i])
 //@ func (nd *KVNode) scanCommand(cmd redcon.Command) (interface{}, error)
 //@   requires nd != nil && nd.store != nil && len(cmd.Args) >= 1
 //@   modifies *
 //@ loop 1
-//@   invariant true
+//@   invariant forall j int :: 0 <= j && j < iter ==> keyInTable(ay[j], table)
+// (the same invariant on advanceScanCommand is not claimed: no installed solver decides its preservation; safety only)
 //@ func (nd *KVNode) advanceScanCommand(cmd redcon.Command) (interface{}, error)
 //@   requires nd != nil && nd.store != nil && len(cmd.Args) >= 1
 //@   modifies *
